@@ -665,6 +665,7 @@ func (r *Run) writer(c *ClientSpec) {
 	defer r.debugWatches()
 	for i := range c.Ops {
 		op := &c.Ops[i]
+		prevOpAt := f.lastOpAt
 		if op.K != "sleep" && op.K != "await-read" && op.K != "quiesce" {
 			f.lastOpAt = r.sim.Step()
 		}
@@ -781,9 +782,11 @@ func (r *Run) writer(c *ClientSpec) {
 			// only a complete, well-formed document ending in its stamp can grow this way
 			cur := f.cur
 			if cur == nil || cur.ID == 0 || cur.ID > 1<<40 {
+				f.lastOpAt = prevOpAt // (nothing was written: not an operation)
 				continue
 			}
 			if b, err := os.ReadFile(f.path); err != nil || string(b) != string(f.spec.render(cur, st.idx)) {
+				f.lastOpAt = prevOpAt // (nothing was written: not an operation)
 				continue
 			}
 			grown := *cur
@@ -799,12 +802,14 @@ func (r *Run) writer(c *ClientSpec) {
 				grown.I = ip(int(grown.ID % 1000003))
 				tail += fmt.Sprintf("i: %d\n", *grown.I)
 			default:
+				f.lastOpAt = prevOpAt // (nothing was written: not an operation)
 				continue
 			}
 			r.parts[grown.ID] = &grown
 			r.owner[grown.ID] = st.idx
 			fh, err := os.OpenFile(f.path, os.O_WRONLY|os.O_APPEND, 0644)
 			if err != nil {
+				f.lastOpAt = prevOpAt
 				continue
 			}
 			fh.WriteString(tail)
